@@ -64,7 +64,7 @@ def _is_angle(dim) -> bool:
     if dim is None:
         return False
     deps = dimsys_SI.get_dimensional_dependencies(dim)
-    return len(deps) == 1 and str(next(iter(deps))) == "angle"
+    return len(deps) == 1 and str(getattr(next(iter(deps)), "name", next(iter(deps)))) == "angle"
 
 
 def make_quantity_exact(rng, dim, si_value):
